@@ -550,6 +550,13 @@ func (x *runner) truth(ctx context.Context, in *scen.Intern) (rec.V, rec.V, rec.
 }
 
 func runScenario(w *rec.Writer, seed uint64, tier string) {
+	t0 := time.Now()
+	defer func() {
+		statMax(w, "max_scenario_ms", int(time.Since(t0).Milliseconds()))
+		if os.Getenv("C20_DEBUG") != "" {
+			fmt.Fprintf(os.Stderr, "scenario %d took %v\n", seed, time.Since(t0))
+		}
+	}()
 	r := rec.NewRand(seed)
 	sh, kind := genShape(r, tier)
 	cfg := genConfig(r, tier)
@@ -573,6 +580,9 @@ func runScenario(w *rec.Writer, seed uint64, tier string) {
 		panic(err)
 	}
 	x := &runner{w: w, r: r, sh: sh, env: env, ds: ds, cfg: cfg}
+	if os.Getenv("C20_DEBUG") != "" {
+		fmt.Fprintf(os.Stderr, "scenario %d %s %s size=%d tuples=%d small=%v setup=%v\n", seed, kind, sh.S.Shape, sh.Size, len(sh.S.Tuples), sh.Small, time.Since(t0))
+	}
 	w.Stat("scenarios", 1)
 	w.Stat("shape_"+kind, 1)
 	w.Stat("tuples", len(sh.S.Tuples))
@@ -592,6 +602,9 @@ func runScenario(w *rec.Writer, seed uint64, tier string) {
 	if l := waitGoroutines(g0, allowRequestScope, grace); len(l) > 0 {
 		leakedN += len(l)
 		leakedDesc = append(leakedDesc, "after the no-deadline checks: "+describe(l, 4))
+		for _, g := range l {
+			g0[g.id] = g
+		}
 	}
 
 	// ---- the server
@@ -686,6 +699,7 @@ func runScenario(w *rec.Writer, seed uint64, tier string) {
 			// do not report the same goroutines again
 			for _, g := range l {
 				g1[g.id] = g
+				g0[g.id] = g
 			}
 		}
 		if n, sites := ds.waitIterators(grace); n > 0 {
@@ -732,6 +746,9 @@ func statMax(w *rec.Writer, key string, v int) {
 func main() {
 	o := rec.ParseFlags()
 	inject = os.Getenv("C20_INJECT")
+	if os.Getenv("C20_DEBUG") != "" {
+		debugSlow = func(n int, sites []string) { fmt.Fprintln(os.Stderr, "slow iterators:", n, sites) }
+	}
 	w := rec.NewWriter(o.Out)
 	defer w.Close()
 	if o.Replay != "" {
